@@ -132,6 +132,9 @@ ALIAS_POSITIONS = {
     'alias-from-activator': 'after s as A: no t { %s }',
     'alias-from-trigger': 'globally: s as A causes t { %s }',
     'alias-in-terminator': 'after s as A until t { %s }: no u',
+    'alias-used-inside-a-disjunction': 'after s as A: no (u or t { %s })',
+    'alias-used-inside-a-disjunctive-behaviour': 'globally: s as A causes (t { %s } or u or w)',
+    'alias-used-inside-a-disjunctive-terminator': 'after s as A until (u or t { %s }): some w',
 }
 
 
@@ -235,10 +238,10 @@ def run_schema(sname, tier, r):
     tok = schemas.to_token(sc, 'M')
     atok = schemas.to_token(schemas.renamed(sc), 'MA')
     other = schemas.to_token(schemas.FAMILY['flat'], 'O')
-    msg_types = {'t': tok, 's': atok, 'u': other}
+    msg_types = {'t': tok, 's': atok, 'u': other, 'w': other}
     dtok = schemas.to_token(schemas.retyped(sc), 'D')
     datok = schemas.to_token(schemas.renamed(schemas.retyped(sc)), 'DA')
-    check_case.decoys = [{'t': dtok, 's': datok, 'u': other}, {'t': other, 's': other, 'u': other}]
+    check_case.decoys = [{'t': dtok, 's': datok, 'u': other, 'w': other}, {'t': other, 's': other, 'u': other, 'w': other}]
     root_types = {'this': sc, 'A': schemas.renamed(sc)}
     for rootname, path, t, st, why in schema_cases(sname, tier):
         for site_name, (site_type, build) in st.items():
